@@ -315,6 +315,58 @@ func balancedPrint(s string) bool {
 	return depth == 0 && strings.ContainsAny(s[:1], "{(") 
 }
 
+// jsonMembers: the member names and integer values of a JSON object in document order, without the encoder's own
+// "Atype" and "zKeyOrder" members; order is the content of "zKeyOrder" (nil if absent)
+func jsonMembers(txt string) (names []string, vals []int, order []string, err error) {
+	dec := json.NewDecoder(strings.NewReader(txt))
+	tok, err := dec.Token()
+	if err != nil {
+		return nil, nil, nil, err
+	}
+	if d, isD := tok.(json.Delim); !isD || d != '{' {
+		return nil, nil, nil, fmt.Errorf("not an object")
+	}
+	for dec.More() {
+		tok, err = dec.Token()
+		if err != nil {
+			return nil, nil, nil, err
+		}
+		name, isStr := tok.(string)
+		if !isStr {
+			return nil, nil, nil, fmt.Errorf("member name %v is not a string", tok)
+		}
+		var raw json.RawMessage
+		if err = dec.Decode(&raw); err != nil {
+			return nil, nil, nil, err
+		}
+		switch name {
+		case "Atype":
+			continue
+		case "zKeyOrder":
+			if err = json.Unmarshal(raw, &order); err != nil {
+				return nil, nil, nil, fmt.Errorf("zKeyOrder: %v", err)
+			}
+			if order == nil {
+				order = []string{}
+			}
+			continue
+		}
+		names = append(names, name)
+		v, cerr := strconv.Atoi(strings.TrimSpace(string(raw)))
+		if cerr != nil {
+			v = -1
+		}
+		vals = append(vals, v)
+	}
+	if _, err = dec.Token(); err != nil {
+		return nil, nil, nil, err
+	}
+	if dec.More() {
+		return nil, nil, nil, fmt.Errorf("trailing data")
+	}
+	return names, vals, order, nil
+}
+
 func eqInts(a, b []int) bool {
 	if len(a) != len(b) {
 		return false
@@ -590,17 +642,10 @@ func execHash(body json.RawMessage) *kernel.Result {
 				}
 			}
 		}
-		// json encoding when every live key is a symbol or string
-		allNamed := true
-		for _, k := range m.keys {
-			if !strings.HasPrefix(k, "sym:") && !strings.HasPrefix(k, "str:") {
-				allNamed = false
-			}
-			if strings.HasPrefix(k, "str:") && strings.ContainsAny(k[4:], "\"\\ ") {
-				allNamed = false
-			}
-		}
-		if allNamed && len(m.keys) > 0 {
+		// json encoding: a well-formed JSON object whose members (apart from the type tag and the key-order list the
+		// encoder adds) are the live keys once each in order with their values; member names are checked against the
+		// key text for symbol and string keys (other key kinds have no prescribed name)
+		if len(m.keys) > 0 {
 			res.Probe("json-observed")
 			o = ev("(json h)")
 			if o.OK() {
@@ -611,12 +656,69 @@ func execHash(body json.RawMessage) *kernel.Result {
 				default:
 					txt = zy.Show(o.Val)
 				}
-				if got := bigInts(txt); !eqInts(got, m.valueList()) {
-					fail("C14.O-order", "json", "step %d: (json h) = %q shows values %v, model %v", step, txt, got, m.valueList())
+				names, vals, order, perr := jsonMembers(txt)
+				switch {
+				case perr != nil:
+					fail("C14.O-order", "json-form", "step %d: (json h) = %q is not well-formed JSON: %v; content %v", step, txt, perr, m.keys)
 					ok = false
+				case !eqInts(vals, m.valueList()):
+					fail("C14.O-order", "json", "step %d: (json h) = %q has member values %v, model %v", step, txt, vals, m.valueList())
+					ok = false
+				case order != nil && strings.Join(order, "\x00") != strings.Join(names, "\x00"):
+					fail("C14.O-order", "json-keyorder", "step %d: (json h) = %q lists key order %v but has members %v", step, txt, order, names)
+					ok = false
+				default:
+					for i, k := range m.keys {
+						if (strings.HasPrefix(k, "sym:") || strings.HasPrefix(k, "str:")) && names[i] != k[4:] {
+							fail("C14.O-order", "json-name", "step %d: (json h) = %q names member %d %q, the key is %s", step, txt, i, names[i], k)
+							ok = false
+							break
+						}
+					}
+				}
+				// and back: decoding what was encoded gives the same number of keys with the same values in the same order
+				// (keys of different kinds may share one member name, e.g. the symbol a and the string "a": JSON cannot hold
+				// both, so the way back is only judged when the names are distinct)
+				distinct := map[string]bool{}
+				for _, n := range names {
+					distinct[n] = true
+				}
+				if len(distinct) != len(names) {
+					res.Probe("json-name-clash")
+				}
+				if ok && len(distinct) == len(names) {
+					for _, rtCode := range []string{"(unjson (json h))", "(unmsgpack (msgpack h))"} {
+						accN++
+						rv := fmt.Sprintf("rt%d", accN)
+						o = ev("(def " + rv + "v []) (range k v " + rtCode + " (set " + rv + "v (append " + rv + "v v))) " + rv + "v")
+						if arr, isArr := o.Val.(*zygo.SexpArray); !o.OK() || !isArr {
+							site := "roundtrip"
+							if o.Panicked {
+								site += "@" + o.Site
+							}
+							fail("C14.O-order", site, "step %d: walking %s gave %s; content %v", step, rtCode, o, m.keys)
+							ok = false
+						} else {
+							var got []int
+							for _, x := range arr.Val {
+								if iv, isInt := x.(*zygo.SexpInt); isInt {
+									got = append(got, int(iv.Val))
+								} else {
+									got = append(got, -1)
+								}
+							}
+							if !eqInts(got, m.valueList()) {
+								fail("C14.O-order", "roundtrip", "step %d: %s holds values %v, model %v", step, rtCode, got, m.valueList())
+								ok = false
+							}
+						}
+					}
 				}
 			} else if o.Panicked {
 				fail("C14.P-panic", "json@"+o.Site, "step %d: (json h) panicked: %s", step, o.PanicMsg)
+				ok = false
+			} else {
+				fail("C14.O-order", "json", "step %d: (json h) failed: %s; content %v", step, o, m.keys)
 				ok = false
 			}
 		}
